@@ -294,6 +294,15 @@ def scale_shapes():
         S("str", ("contains", "needle"), ln(50, E)), S("str", ("regex", "[ab]{40}")),
         S("int", ("min", 2 ** 64), ("max", 2 ** 64 + 3)), S("int", call(2 ** 70)), S("int", ("max", -2 ** 64)),
         S("float", ("min", 1e300), ("max", 1.0000001e300)), S("float", call(1e-300)),
+        # the largest declarable precision, free and pinned; a pinned value that overflows once scaled
+        S("float", ("precision", 15)), S("float", ("min", 0.0), ("max", 1.0), ("precision", 15)),
+        S("float", call(1e300), ("precision", 15)), S("float", call(-1.5e306), ("precision", 3)),
+        ("subst", S("float", ("precision", 3)), 1.5e306),
+        # negated classes with a range / literal BEFORE a category
+        S("str", ("regex", "[^a-c\\d]x")), S("str", ("regex", "^[^_\\d]{2}$")), S("str", ("regex", "[^A-Z\\w]")),
+        # an accept-anything element next to the open end of a list that must be padded
+        ("list", ("elems", (("any", None), INT, E)), (ln(5),)), ("list", ("elems", (E, ("any", None), INT)), (ln(4),)),
+        ("list", ("elems", (("any", None), E)), (ln(3),)), ("list", ("elems", (E, INT, ("any", None), E)), (ln(4),)),
         ("list", ("typed", INT), (ln(25),)), ("list", ("typed", S("bool")), (ln(40, E),)),
         ("list", ("elems", tuple([a] * 6 + [E])), (ln(12),)), ("list", ("elems", tuple([E] + [STR] * 5)), ()),
         ten, ("mkreq", ten, None), ("add", ten, ("dict", (("k3", True, a), ("new", False, a)), True)),
